@@ -73,4 +73,102 @@ theorem cursor_positions_distinct (n a k : Nat) (hk : k ≤ n) :
   omega
 
 
+
+/-- everything `accept_one` does when the worker at the cursor is marked available -/
+theorem acceptOne_at_cursor {cfg : Cfg} (ok : CfgOk cfg) (fuel : Nat) (s : St) (c : Conn)
+    (h : AccInv cfg s) (hnf : s.fault = none) (hav : s.avail s.next = true) :
+    AccInv cfg (acceptOne cfg (fuel + 1) s c) ∧ (acceptOne cfg (fuel + 1) s c).fault = none ∧
+    (∀ j, j ≠ s.next → (acceptOne cfg (fuel + 1) s c).avail j = s.avail j) := by
+  have hn : s.next < cfg.nIdx := h.good.1.next_lt
+  have hany : anyAvail cfg s = true := by
+    unfold anyAvail; exact List.any_eq_true.mpr ⟨s.next, List.mem_range.mpr hn, hav⟩
+  refine ⟨acceptOne_good ok _ s c h hany, ?_, ?_⟩
+  all_goals
+    have hh : s.handles = List.range cfg.nIdx := h.good.1.handles
+    have hidx : (s.wk s.next).idx = s.next := h.good.1.idx s.next
+    have hal : (s.wk s.next).alive = true := h.good.1.alive s.next
+    have h512 : s.next < 512 := by have := ok.max; omega
+    have hsc : sendConnection cfg s c =
+        (setNext (incPrim cfg (yieldPt cfg (sendPrim s s.next c)) s.next (s.wk s.next).idx), true) := by
+      simp [sendConnection, hnf, handles_next h.good, hal]
+    simp only [acceptOne, hnf, Option.isSome_none, Bool.false_eq_true, ↓reduceIte, handles_next h.good, hidx, hav, hsc]
+    obtain ⟨g1, p1, s1, a1⟩ := sendPrim_good h s.next hn hav c
+    obtain ⟨g2, l2, s2⟩ := yieldPt_good cfg _ g1 s1
+    obtain ⟨i1, i2⟩ := incPrim_next cfg (yieldPt cfg (sendPrim s s.next c)) s.next s.next
+    have hlen : (incPrim cfg (yieldPt cfg (sendPrim s s.next c)) s.next s.next).handles.length = cfg.nIdx := by
+      rw [i2, l2.2.2.1]; show s.handles.length = _; rw [hh]; simp
+    unfold setNext
+    rw [if_neg (by rw [hlen]; exact Nat.pos_iff_ne_zero.mp ok.pos)]
+    simp only
+  · unfold incPrim; simp only
+    split
+    · rw [yieldPt_fault]; exact hnf
+    · simp only [setAvail, h512, ↓reduceIte]; rw [yieldPt_fault]; exact hnf
+  · intro j hj
+    unfold incPrim; simp only
+    split
+    · rw [yieldPt_avail]; rfl
+    · simp only [setAvail, h512, ↓reduceIte, upd, hj]; rw [yieldPt_avail]; rfl
+
+/-- `accept_one` applied to a run of connections, one after the other (what the `accept` loop does
+while `accept()` keeps returning connections) -/
+def burst (cfg : Cfg) : St → List Conn → St
+  | s, [] => s
+  | s, c :: cs => burst cfg (acceptOne cfg (acceptOneFuel s) s c) cs
+
+/-- **Round robin, composed.**  If the `k ≤ W` cursor positions `next, next+1, …, next+k-1 (mod W)`
+are marked available, the next `k` connections go to exactly those workers, in that order — `k`
+distinct workers — whatever the other threads do at the yield points in between. -/
+theorem burst_round_robin {cfg : Cfg} (ok : CfgOk cfg) : ∀ (cs : List Conn) (s : St), AccInv cfg s → s.fault = none →
+    cs.length ≤ cfg.nIdx → (∀ j, j < cs.length → s.avail ((s.next + j) % cfg.nIdx) = true) →
+    (burst cfg s cs).dispatched =
+      s.dispatched ++ (List.range cs.length).zipWith (fun j c => (c, (s.next + j) % cfg.nIdx)) cs ∧
+    (burst cfg s cs).next = (s.next + cs.length) % cfg.nIdx := by
+  intro cs; induction cs with
+  | nil =>
+    intro s h _ _ _
+    have hn : s.next < cfg.nIdx := h.good.1.next_lt
+    simp [burst, Nat.mod_eq_of_lt hn]
+  | cons c cs ih =>
+    intro s h hnf hk hav
+    have hn : s.next < cfg.nIdx := h.good.1.next_lt
+    have hav0 : s.avail s.next = true := by
+      have := hav 0 (by simp); simpa [Nat.mod_eq_of_lt hn] using this
+    have hfuel : acceptOneFuel s = (acceptOneFuel s - 1) + 1 := by unfold acceptOneFuel; omega
+    obtain ⟨d1, n1⟩ := acceptOne_dispatches_to_cursor ok (acceptOneFuel s - 1) s c h hnf hav0
+    obtain ⟨a1, f1, v1⟩ := acceptOne_at_cursor ok (acceptOneFuel s - 1) s c h hnf hav0
+    rw [← hfuel] at d1 n1 a1 f1 v1
+    simp only [burst]
+    have hk' : cs.length ≤ cfg.nIdx := by simp at hk; omega
+    have hav' : ∀ j, j < cs.length → (acceptOne cfg (acceptOneFuel s) s c).avail (((acceptOne cfg (acceptOneFuel s) s c).next + j) % cfg.nIdx) = true := by
+      intro j hj
+      have e : ((s.next + 1) % cfg.nIdx + j) % cfg.nIdx = (s.next + (j + 1)) % cfg.nIdx := by
+        rw [Nat.add_mod, Nat.mod_mod, ← Nat.add_mod]; congr 1; omega
+      rw [n1, e]
+      have hne : (s.next + (j + 1)) % cfg.nIdx ≠ s.next := by
+        intro heq
+        have h2 : (s.next + (j + 1)) % cfg.nIdx = (s.next + 0) % cfg.nIdx := by
+          rw [heq]; simp [Nat.mod_eq_of_lt hn]
+        have := Nat.sub_mod_eq_zero_of_mod_eq h2
+        have e2 : s.next + (j + 1) - (s.next + 0) = j + 1 := by omega
+        rw [e2, Nat.mod_eq_of_lt (by simp at hk; omega)] at this
+        omega
+      rw [v1 _ hne]
+      exact hav (j + 1) (by simp; omega)
+    obtain ⟨i1, i2⟩ := ih _ a1 f1 hk' hav'
+    refine ⟨?_, ?_⟩
+    · rw [i1, d1, n1]
+      simp only [List.length_cons, List.range_succ_eq_map, List.zipWith_cons_cons, List.zipWith_map_left,
+        List.append_assoc, List.singleton_append, Nat.add_zero, Nat.mod_eq_of_lt hn]
+      have e : (fun (j : Nat) (c : Conn) => (c, ((s.next + 1) % cfg.nIdx + j) % cfg.nIdx)) =
+          (fun (a : Nat) (b : Conn) => (b, (s.next + a.succ) % cfg.nIdx)) := by
+        funext j c
+        rw [Nat.add_mod, Nat.mod_mod, ← Nat.add_mod]
+        congr 2; omega
+      rw [e]
+    · rw [i2, n1]
+      simp only [List.length_cons]
+      rw [Nat.add_mod, Nat.mod_mod, ← Nat.add_mod]; congr 1; omega
+
+
 end ActixNet.Srv
